@@ -78,7 +78,13 @@ func (exec *BatchExecutor) SetSupportedProtocolVersions(versions ...kmip.Protoco
 	if len(versions) == 0 {
 		versions = defaultSupportedVersion
 	}
-	slices.SortFunc(versions, ttlv.CompareVersions)
+	// Most recent version first (the order in which discovery advertises them),
+	// sorting a copy so that neither the caller's slice nor the package default
+	// is reordered.
+	versions = slices.Clone(versions)
+	slices.SortFunc(versions, func(a, b kmip.ProtocolVersion) int {
+		return ttlv.CompareVersions(b, a)
+	})
 	versions = slices.Compact(versions)
 	exec.supportedVersions = versions
 }
